@@ -23,7 +23,8 @@ func init() {
 			"R8 the written file is the file read: in Run the tree handed to Apply is the parse of the bytes read under this name in this iteration, the tree printed is the one Apply returned, and every sink that takes a path is given this file's path (or the Provided spelling of the same list element). R1 additionally requires every possible origin (all phi edges, all stores into locals) of a reflective assignment's destination to be a value allocated in that call. " +
 			"NOT decided: effects of astdiff / line merging on layout; go/printer; whether elided statements inside a rebuilt container are syntactically unchanged (they are the same node pointers)." +
 			" R10 the slot written is the slot matched; R11 the written file holds only the printed tree." +
-			" R1 also: reflect writes through a helper are checked at its call sites; R12 matching writes no shared memory.",
+			" R1 also: reflect writes through a helper are checked at its call sites; R12 matching writes no shared memory." +
+			" R13 the bytes kept for a file are not a window into a buffer that is rewound and filled again (same rule as C03-R12).",
 		Trusted:     commonTrusted,
 		Assumptions: commonAssumptions,
 	})
@@ -61,6 +62,9 @@ func runC05(r *an.Run) {
 		c07WrittenFileStartsEmpty(r, m)
 		relabel(r, "R4-the-written-file-holds-exactly-the-validated-bytes", "R11-the-written-file-holds-only-the-printed-tree")
 	}
+	// the bytes kept for a file (its source, its printed result) are that file's: not a window into a buffer
+	// that is rewound and filled again for the next file
+	noTransientBufferRetained(r, "R13-kept-bytes-are-not-a-window-into-a-reused-buffer")
 }
 
 // astWrites lists stores whose destination is a field of a go/ast (or
